@@ -25,17 +25,18 @@ func zzCount(slots []*zzSlot, v6 bool, pred func(s *zzSlot) bool) int {
 
 // C06(d): shrinking the pool only removes idle addresses.
 func ZZ_C06_dispose() {
-	n4, n6 := 2, zz.Fork("n6", 2)
+	sh := zz.Shard(8) // IPv6 address present x request pending x trunk interface
+	n4, n6 := 2, sh%2
 	if zz.Tier() > 0 {
 		n4 = 3
 	}
 	f := zzNewFactory(false)
 	l, slots := zzPool(n4, n6, f)
 	zz.Assume(zzInv(slots))
-	if zz.Bool("pending") {
+	if (sh/2)%2 == 1 {
 		l.allocatingV4 = append(l.allocatingV4, zzNewRequest())
 	}
-	l.eni.Trunk = zz.Bool("eni.trunk")
+	l.eni.Trunk = sh/4 == 1
 	n := zz.IntRange("n", -1, 4)
 	anyOwned := false
 	for _, s := range slots {
